@@ -144,8 +144,26 @@ def make_job(sde_type, noise, method, adjoint_method):
     return Job(f'{sde_type}-{noise}-{method}-{adjoint_method}', fn)
 
 
+def uses_c11(j):
+    """The backward-structure obligations above are stated against the real AdjointSDE; that its vector fields are those of the adjoint
+    system is the contract C11 puts on AdjointSDE.  Its value clauses are part of the argument for C09 and are discharged here as well
+    (the `remains-differentiable` clauses concern double backward, which C09 does not state)."""
+    def fn(E, rep, tier):
+        j.fn(E, rep, tier)
+        keep = []
+        for o in rep.obligations:
+            if 'remains-differentiable' in o['name']:
+                continue
+            o['name'] = 'C09/uses:' + o['name']
+            keep.append(o)
+        rep.obligations[:] = keep
+    return Job('uses-C11-' + j.name, fn)
+
+
 def jobs(tier):
+    from props import C11
     out = [make_job(*c) for c in CASES if c[2] != 'srk']
+    out += [uses_c11(j) for j in C11.jobs(tier) if tier == 'thorough' or j.name.endswith('nograd')]
     for noise in ('diagonal', 'general'):
         for pattern in ('all', 'last-zero', 'middle-only'):
             j = C10.make_e2e_job(noise, pattern)
@@ -171,4 +189,4 @@ def canaries(tier):
 
 def native_replay(ob):
     from props.base import run_native
-    return run_native('c10')
+    return run_native('c09')
